@@ -44,6 +44,8 @@ def check_bytes(case):
         cls.append("nt:all-zero")
     if case.get("kind") == "radix":
         cls.append("nt:radix-boundary")
+    if len(data) >= 96:
+        cls.append("nt:data>=96-bytes")  # encodings of more than 128 characters
     if not cls:
         cls.append("plain")
     exp = ref.encode(data)
@@ -104,7 +106,7 @@ def bytes_cases(draw):
     kind = draw(st.sampled_from(["zeros+body", "allzero", "allff", "radix", "random", "random"]))
     if kind == "zeros+body":
         z = draw(st.integers(0, 40))
-        body = draw(st.binary(min_size=0, max_size=88))
+        body = draw(gen.sized_binary(88))
         data = b"\x00" * z + body
     elif kind == "allzero":
         data = b"\x00" * draw(st.integers(0, 128))
@@ -117,6 +119,9 @@ def bytes_cases(draw):
         data = v.to_bytes((v.bit_length() + 7) // 8, "big")[-128:]
         data = b"\x00" * draw(st.integers(0, 3)) + data
         data = data[:128]
+    elif draw(st.booleans()):
+        n = draw(st.integers(0, 128))  # Hypothesis' own sizes lean short: every length is as likely as any other here
+        data = draw(st.binary(min_size=n, max_size=n))
     else:
         data = draw(st.binary(min_size=0, max_size=128))
     return {"kind": kind, "data": hx(data)}
@@ -135,7 +140,7 @@ def string_cases(draw):
         s = bytes(draw(st.lists(st.sampled_from(pool), min_size=n, max_size=n)))
         return {"kind": kind, "s": hx(s)}
     if kind == "raw":
-        return {"kind": kind, "s": hx(draw(st.binary(max_size=60)))}
+        return {"kind": kind, "s": hx(draw(gen.sized_binary(60)))}
     payload = draw(st.one_of(st.binary(max_size=40), st.integers(0, 6).flatmap(lambda z: st.binary(max_size=30).map(lambda b: b"\x00" * z + b))))
     base = ref.check_encode(payload)
     if kind == "valid":
@@ -162,7 +167,7 @@ def _targets(tier):
             check_bytes,
             strategy=lambda tier: bytes_cases(),
             budget={"quick": 20000, "thorough": 400000},
-            required=["nt:leading-zeros", "nt:empty", "nt:all-zero", "nt:radix-boundary"],
+            required=["nt:leading-zeros", "nt:empty", "nt:all-zero", "nt:radix-boundary", "nt:data>=96-bytes"],
         ),
         Target(
             "string-accept",
